@@ -166,7 +166,7 @@ def validate(text, sinks=('ack',), charset='E', plan=None, eof=None, clock=None,
     res.clock, res.rand = clock, rand
     if isinstance(src, seams.SimSource):
         res.reads, res.short_reads = src.reads, src.short_reads
-    h = tap.last()
+    h = tap.first()
     if h is not None:
         try:
             res.errors, res.struct = walk_tree(h)
